@@ -13,12 +13,9 @@ import pydbml.exceptions as pex  # noqa: E402
 from harness.observe import StickyNote, classify  # noqa: E402
 
 PID = 'C09'
-THEOREMS_PLANNED = ['PyDBML.C09.step_inv', 'PyDBML.C09.reach_inv', 'PyDBML.C09.rejected_unchanged',
-            'PyDBML.C09.tables_are_added_not_deleted', 'PyDBML.C09.lookup_sound', 'PyDBML.C09.lookup_complete',
-            'PyDBML.C09.project_replaced', 'PyDBML.C09T.step_inv', 'PyDBML.C09T.reach_inv',
-            'PyDBML.C09T.foreign_index_refused']
-THEOREMS = []
-MODULES = []
+THEOREMS = ['PyDBML.C09.step_inv', 'PyDBML.C09.reach_inv', 'PyDBML.C09.init_inv', 'PyDBML.C09.rejected_unchanged',
+            'PyDBML.C09.tables_step', 'PyDBML.C09.lookup_sound', 'PyDBML.C09.project_replaced']
+MODULES = ['PyDBMLProofs.Props.C09']
 
 # ---- universe -------------------------------------------------------------------------------------
 UNIVERSE = {
@@ -533,7 +530,7 @@ def kf_replay(f):
 
 
 def main(tier, seed):
-    ctx = core.Ctx(PID, tier, seed, 'translation_validation', THEOREMS, MODULES)
+    ctx = core.Ctx(PID, tier, seed, 'proof', THEOREMS, MODULES)
     ctx.build()
     problems = ctx.audit() if ctx.build_ok else ['lake build failed']
     drv = None
